@@ -1210,7 +1210,10 @@ class Epoch(object):
             x -= 1
             m += 12
         alpha = iint(x / 100.0)
-        beta = 2 - alpha + iint(alpha / 4.0)
+        if Epoch.is_julian(year, month, day):
+            beta = 0
+        else:
+            beta = 2 - alpha + iint(alpha / 4.0)
         b = iint(365.25 * x) + iint(30.6001 * (m + 1.0)) + d + 1722519 + beta
         c = iint((b - 122.1) / 365.25)
         d = iint(365.25 * c)
